@@ -38,6 +38,8 @@ def gen_doc(rng):
                 kids.append(xdm.PI("t", "d"))
         maybe_ws()
         attrs = [xdm.A("x", rng.choice(["1", " ", ""]))] if rng.random() < 0.3 else []
+        if rng.random() < 0.18:           # 3.4: xml:space in the SOURCE overrides the declarations for the whole subtree, until "default"
+            attrs.append(xdm.A("space", rng.choice(["preserve", "preserve", "default"]), p="xml", u=xdm.XML_NS))
         return xdm.E(name, *kids, a=attrs)
     return xdm.R(elem(3))
 
@@ -147,7 +149,7 @@ def flatten_result(tree):
     """the result tree recorder's JSON -> the XDM flat record (no namespaces in these documents)"""
     def conv(n):
         if n["k"] == "elem":
-            return xdm.E(n["qn"], *[conv(c) for c in n["c"]], a=[xdm.A(a[0], a[1]) for a in n["a"] if not a[0].startswith("xmlns")])
+            return xdm.E(n["qn"], *[conv(c) for c in n["c"]], a=[(xdm.A(a[0][4:], a[1], p="xml", u=xdm.XML_NS) if a[0].startswith("xml:") else xdm.A(a[0], a[1])) for a in n["a"] if not a[0].startswith("xmlns")])
         if n["k"] == "text":
             return xdm.T(n["v"])
         if n["k"] == "comment":
@@ -248,14 +250,14 @@ def run(res, tier, seed):
         if ev["e"] == "Copy" and ev["flat"]["n"] < flats[ev["doc"] - 1]["n"]:
             nt.add(ev["sample"])
     res.cov["distinct_nontrivial"] = len({vlib.canon_hash([e["doc"], e["decls"], e.get("text"), e.get("ctx")]) for e in events if e["sample"] in nt})
-    res.cov["rule"] = ("seeded documents (depth <= 3, whitespace-only text before/between/after children and next to comments/PIs) x 1-4 strip/preserve declarations (*, QNames, "
+    res.cov["rule"] = ("seeded documents (depth <= 3, whitespace-only text before/between/after children and next to comments/PIs, xml:space preserve / default on some elements) x 1-4 strip/preserve declarations (*, QNames, "
                        "conflicting, spread over an import tree main > B > A > A1 with conflicts between sibling and nested imports) x 7 of 25 observation expressions evaluated from every element and the root (child/descendant/sibling/following/preceding axes, "
                        "position/last, count, string values, sum, name) + 3 of 12 key() observations over six keys whose match / use see text nodes or string-values of elements + 2 of 5 xsl:number "
                        "instructions (single/multiple/any counting node() / text()) on every element + xsl:copy-of of the whole document; non-trivial = the declarations strip at least one node of that document; "
                        "distinct by (document, declarations, observation, context)")
     for ev in [e for e in events if e["e"] == "Obs"][:: max(1, len(events) // 4)][:4]:
         res.sample({k: ev[k] for k in ("doc", "ctx", "decls", "text", "res") if k in ev})
-    res.assumptions += ["documents carry no xml:space attributes (Xalan does not consult xml:space in source documents; out of this property's statement)",
+    res.assumptions += [
                         "the value on the stripped document is computed by XPathSem (C02's definition)"]
 
 
